@@ -224,7 +224,8 @@ fn cmd_replay(args: &[String]) -> i32 {
         Ok((prop, run)) => match run.violation {
             Some(v) => {
                 println!("violation: {} {}: {} (after op {})", v.prop, v.kind, v.detail, v.step);
-                println!("VIOLATION property={} replay={}", if prop.is_empty() { v.prop.to_string() } else { v.prop.to_string() }, path);
+                let want = arg(args, "--prop").unwrap_or(prop);
+                println!("VIOLATION property={} replay={}", if v.is(&want) { want } else { v.prop.to_string() }, path);
                 1
             }
             None => {
